@@ -1,51 +1,45 @@
 package main
 
 import (
-	"bytes"
+	"errors"
 	"fmt"
-	"io"
 
 	"github.com/open2b/scriggo"
 	"github.com/open2b/scriggo/native"
 )
 
-func conv(src []byte, out io.Writer) error {
-	if _, err := out.Write([]byte("<md>")); err != nil {
-		return err
-	}
-	if _, err := out.Write(src); err != nil {
-		return err
-	}
-	_, err := out.Write([]byte("</md>"))
-	return err
-}
+var errStop = errors.New("STOP")
 
-func run(files scriggo.Files, name string) {
+var pk = native.Packages{"host": native.Package{Name: "host", Declarations: native.Declarations{
+	"Stop":        func(env native.Env) { env.Stop(errStop) },
+	"Fatal":       func(env native.Env) { env.Fatal("fatal") },
+	"PanicString": func() { panic("native panic") },
+	"Nop":         func() {},
+}}}
+
+func runp(body string) {
+	src := "package main\nimport \"host\"\nvar _ = host.Nop\nfunc main() {\n" + body + "\n}\n"
 	defer func() {
 		if r := recover(); r != nil {
-			fmt.Printf("%-40q HOST PANIC: %v\n", files[name], r)
+			fmt.Printf("%-60q HOST PANIC: %v\n", body, r)
 		}
 	}()
-	g := native.Declarations{"s": (*string)(nil)}
-	t, err := scriggo.BuildTemplate(files, name, &scriggo.BuildOptions{Globals: g, MarkdownConverter: conv})
+	p, err := scriggo.Build(scriggo.Files{"go.mod": []byte("module m\ngo 1.20\n"), "main.go": []byte(src)}, &scriggo.BuildOptions{Packages: pk})
 	if err != nil {
-		fmt.Printf("%-40q build error: %v\n", files[name], err)
+		fmt.Println("build error:", err)
 		return
 	}
-	var b bytes.Buffer
-	err = t.Run(&b, map[string]any{"s": "<i>&"}, nil)
-	fmt.Printf("%-40q out=%q err=%v\n", files[name], b.String(), err)
+	err = p.Run(&scriggo.RunOptions{Print: func(any) {}})
+	fmt.Printf("%-60q err=%v\n", body, err)
 }
 
 func main() {
-	for _, f := range []struct{ name, src string }{
-		{"i.txt", `{% macro M html %}<script>var a = "{{ s }}";</script><a href='{{ s }}'>{% end %}{{ M() }}`},
-		{"i.html", `{% macro M html %}<script>var a = "{{ s }}";</script><a href='{{ s }}'>{% end %}{{ M() }}`},
-		{"i.html", `{% macro M %}<script>var a = "{{ s }}";</script><a href='{{ s }}'>{% end %}{{ M() }}`},
-		{"i.txt", `{% macro M html %}<script>var a = "x";</script><a href='{{ s }}'>{% end %}{{ M() }}`},
-		{"i.txt", `{% macro M html %}<script>var a = 1;</script>{{ s }}{% end %}{{ M() }}`},
-		{"i.txt", `{% macro M html %}<style>a{}</style>{{ s }}{% end %}{{ M() }}`},
-	} {
-		run(scriggo.Files{f.name: []byte(f.src)}, f.name)
-	}
+	runp("defer host.PanicString()\npanic(\"a\")")
+	runp("defer host.Stop()\npanic(\"a\")")
+	runp("defer host.Fatal()\npanic(\"a\")")
+	runp("defer host.PanicString()")
+	runp("defer func() { panic(\"b\") }()\npanic(\"a\")")
+	runp("defer func() { var m map[string]int; m[\"a\"] = 1 }()\npanic(\"a\")")
+	runp("defer func() { recover() }()\ndefer host.PanicString()\npanic(\"a\")")
+	runp("f := func() { defer host.PanicString(); panic(\"a\") }\nf()")
 }
